@@ -206,6 +206,7 @@ std::string demangled(const std::string& t) { return t; }
 
 struct Stats {
   long execs = 0, fired = 0, bad_alloc = 0, silent = 0, sink_refused = 0, viol = 0, not_fired = 0, nonfinite = 0, spontaneous_bad_alloc = 0;
+  long after = 0, after_diverged = 0, after_bad_alloc = 0;
 };
 
 void check_outcome(const OpEntry& e, const Outcome& o, bool fault_fired, const char* fdesc, Stats& st, bool mask_on = false) {
@@ -444,6 +445,23 @@ void execute(const OpEntry& e, std::uint64_t seed, long p0, long p1, int slot, c
     if (g_slots[slot]->buf.refused > 0) ++st.sink_refused;
     check_outcome(e, r1, false, "slot", st);
   }
+  if (fault != "none" && !slot_os) {
+    // E2, "once faults stop": the same call again, fault-free, in the process that has just been through every fault
+    // above.  State the library may have left half-updated under a fault (a cache entry, a reusable buffer, a
+    // function-local static whose first initialisation was interrupted) is then first read here.  Oracle: the
+    // property's own (no foreign exception, no invalid enumerator, no sanitizer report); whether the result and the
+    // number of allocations equal E0's is counted, not judged.
+    g_phase = "E2-after";
+    vrt::g_alloc = vrt::AllocState{};
+    vrt::g_armed = true;
+    Scratch s;
+    Outcome r2 = run_once(e, c, seed, p0, p1, &s.os);
+    vrt::g_armed = false;
+    ++st.execs; ++st.after;
+    check_outcome(e, r2, false, "after-faults", st);
+    if (r2.cls == 1) ++st.after_bad_alloc;
+    if (r2.cls != r0.cls || r2.h != r0.h || vrt::g_alloc.count != n) ++st.after_diverged;
+  }
   g_phase = "-";
   say("R %ld %ld ok n=%ld fired=%ld h0=%016llx len=%ld nf=%d\n", g_run, g_opidx, n, fired_total, static_cast<unsigned long long>(r0.h), r0.len, r0.nonfinite ? 1 : 0);
 }
@@ -641,7 +659,7 @@ int main(int argc, char** argv) {
       say("E %ld\n", g_run);
     }
   }
-  say("S execs=%ld fired=%ld not_fired=%ld bad_alloc=%ld silent=%ld sink_refused=%ld viol=%ld nonfinite=%ld spontaneous=%ld ops=%ld\n", st.execs, st.fired, st.not_fired,
-      st.bad_alloc, st.silent, st.sink_refused, st.viol, st.nonfinite, st.spontaneous_bad_alloc, total);
+  say("S execs=%ld fired=%ld not_fired=%ld bad_alloc=%ld silent=%ld sink_refused=%ld viol=%ld nonfinite=%ld spontaneous=%ld after=%ld after_diverged=%ld after_bad_alloc=%ld ops=%ld\n", st.execs, st.fired, st.not_fired,
+      st.bad_alloc, st.silent, st.sink_refused, st.viol, st.nonfinite, st.spontaneous_bad_alloc, st.after, st.after_diverged, st.after_bad_alloc, total);
   return 0;
 }
